@@ -34,6 +34,7 @@ DECIDED = [
     "C17.2 accumulator = first image's states, then intersection only; the 'first image' test is not an emptiness test",
     "C17.3 ramfile: a memory state is listed only if its name is in the image intersection; names are '<entry minus .state>'",
     "C17.4 ON/OFF regex languages vs the qemu-img line model: disjoint; '0 B' lines are OFF only; non-zero sizes are ON only",
+    "C17.6 the per-image operations behind a vm-level ramfile state are local ones (KNOWN FINDING F24: the pool-routing public operations are used)",
     "C17.5 qcow2ext listing: a state per '*.qcow2' entry; backend class constants select the ON/OFF pattern",
 ]
 NOT_DECIDED = ["qemu-img output outside the stated line model", "captured group text under backtracking", "matches spanning several lines"]
@@ -351,7 +352,32 @@ def engine_selftest(ctx: Ctx, seed: int) -> dict:
     return {"engine_vs_re_samples": n, "engine_vs_re_mismatches": mism}
 
 
+def local_image_listing(ctx: Ctx, rule: str) -> None:
+    """The per-image listing behind the completeness test is the image's *local* listing.
+
+    RamfileBackend._show/_get/_set/_unset are the local halves of a pool-aware backend; the image backend they delegate to
+    is pool-aware too.  Calling its public (pool-routing) operation with the vm's parameters lets pool content count as an
+    image's states (a vm state is listed although an image lacks it locally and in the pool) and repeats transfers/removals
+    per image.  Accepted: the image backend's local operation (`_show` ...), or the public one with pool_scope forced to 'own'."""
+    for op in ("show", "get", "set", "unset"):
+        fref = f"{R}:RamfileBackend._{op}"
+        fn = ctx.repo.func(fref)
+        ctx.touch(fref)
+        calls = [c for c in calls_in(fn.node) if isinstance(c.func, ast.Attribute) and ast.unparse(c.func.value) == "cls.image_state_backend" and c.func.attr in (op, "_" + op)]
+        if len(calls) != 1:
+            raise AnalysisError(f"{fref}: expected one delegation to the image backend, found {len(calls)}")
+        c = calls[0]
+        local = c.func.attr.startswith("_")
+        arg = ast.unparse(c.args[0]) if c.args else ""
+        forced = any(isinstance(s_, ast.Assign) and ast.unparse(s_.targets[0]) == f"{arg}['pool_scope']" and isinstance(s_.value, ast.Constant) and s_.value.value == "own" and s_.lineno < c.lineno
+                     for s_ in ast.walk(fn.node))
+        ok = local or forced
+        ctx.record(rule, "OWNER", fref, f"cls.image_state_backend.{c.func.attr}({arg}, ...)", ok, {"local_operation": local, "scope_forced_own": forced},
+                   "" if ok else f"_{op} of the vm-level backend runs the image backend's pool-routing {op}() with the vm's pool parameters: pool content counts as the image's own states / is transferred or removed once per image")
+
+
 def run(ctx: Ctx) -> None:
+    ctx.call(local_image_listing, "6")
     ctx.call(accumulator_rules, "1", "2")
     ctx.call(vt_result, "2r")
     ctx.call(ramfile_guard, "3")
